@@ -103,6 +103,8 @@ def oracle(stream, header, ops, obs):
         if first == "panic" or not gr:
             return bad(k, "isomorphism-function-panicked")
         nm, em = (a + [0, 0])[:2] if name.endswith("matching") or name == "sub_iter" else (0, 0)
+        if len(g["n0"]) > 8:
+            continue        # too large for the exhaustive enumeration: compared with the mirror only (a panic is still flagged above)
         maps = all_maps(g, nm, em)
         if name in ("iso", "iso_matching"):
             want = int(len(g["n0"]) == len(g["n1"]) and bool(maps))
